@@ -73,8 +73,11 @@ def gen(rng, what, kind):
         if nout == 1 and rng.random() < 0.4:
             cfg["ic_return"] = "scalar"; cfg["w"] = rng.randint(1, 6) / 2
     elif what == "norm":
-        if kind == "statio" and nout >= 2 and rng.random() < 0.6:        # the integral is taken over the solution components only
-            lo = rng.randint(0, nout - 1); hi = rng.randint(lo + 1, nout)
+        if kind == "statio" and rng.random() < 0.6:        # the integral is taken over the solution components only (a proper sub-slice)
+            while len(cfg["upolys"]) < 2:
+                cfg["upolys"].append(prand(rng, nv, 2, 3) or {(0,) * nv: 1})
+            nout = len(cfg["upolys"])
+            lo, hi = rng.choice([(a, b) for a in range(nout) for b in range(a + 1, nout + 1) if b - a < nout])
             cfg["sol"] = [lo, hi]
         cfg.update(samples=[[dy(rng) for _ in range(dim)] for _ in range(rng.randint(1, 5))], L=rng.choice([1.0, 2.0, 0.5, 3.0]))
     else:
@@ -90,7 +93,8 @@ def gen(rng, what, kind):
         cfg["w"] = [rng.randint(0, 4) / 2 for _ in range(nobs)] if rng.random() < 0.5 else rng.randint(1, 6) / 2
     if what != "obs" and rng.random() < 0.5:
         n = rng.randint(1, 4)
-        cfg["extra_obs"] = dict(inputs=[[dy(rng) for _ in range(nv)] for _ in range(n)], vals=[[float(rng.randint(-2, 2)) for _ in range(nout)] for _ in range(n)],
+        ncol = (cfg["sol"][1] - cfg["sol"][0]) if cfg.get("sol") else len(cfg["upolys"])
+        cfg["extra_obs"] = dict(inputs=[[dy(rng) for _ in range(nv)] for _ in range(n)], vals=[[float(rng.randint(-2, 2)) for _ in range(ncol)] for _ in range(n)],
                                 arows=[dy(rng, 4, 9) for _ in range(n)])
     return cfg
 
